@@ -297,6 +297,7 @@ SPECS["C15"] = dict(
         rapid("TestC15Pool", 250, 8000, sq=4, st=16),
         rapid("TestC15PoolAutoTune", 600, 20000, sq=2, st=8),
         rapid("TestC15RealUDP", 40, 1500, sq=2, st=8),
+        rapid("TestC15BacklogBoundary", 60, 600, sq=1, st=4),
     ],
 )
 
